@@ -61,6 +61,15 @@ mod simd_impl {
         x.max(min).min(max)
     }
 
+    /// Divides every lane by `1 << shift`, truncating toward zero like the scalar
+    /// `/` does (a plain arithmetic right shift rounds toward negative infinity).
+    #[inline]
+    fn div_pow2_simd(x: i16x8, shift: i32) -> i16x8 {
+        let sign: i16x8 = x.shr(15);
+        let biased: i16x8 = x + (sign & i16x8::splat((1i16 << shift) - 1));
+        biased.shr(shift)
+    }
+
     /// Same as `scalar::up_down_ramp`, but operates on a vector of 8 values in parallel
     #[inline]
     fn up_down_ramp_simd(x: i16x8, strength: i16) -> i16x8 {
@@ -104,9 +113,9 @@ mod simd_impl {
         let c16 = into_simd16(C);
         let d16 = into_simd16(D);
 
-        let d: i16x8 = (a16 - 4 * b16 + 4 * c16 - d16).shr(3);
+        let d: i16x8 = div_pow2_simd(a16 - 4 * b16 + 4 * c16 - d16, 3);
         let d1: i16x8 = up_down_ramp_simd(d, strength as i16);
-        let d2: i16x8 = clipd1_simd((a16 - d16).shr(2), d1.shr(1));
+        let d2: i16x8 = clipd1_simd(div_pow2_simd(a16 - d16, 2), div_pow2_simd(d1, 1));
 
         let res_a = a16 - d2;
         let res_b = clamp_simd(b16 + d1, i16x8::ZERO, i16x8::splat(255));
